@@ -38,6 +38,7 @@ MCOVER = [
     [[-2.0, -1.0], [-1.0, 1.0]],
     [],
     [[1.0, 1.0], [0.0, 4.0]],
+    [[0.0, 1.0], [2.0, 5.0], [1.0, 4.0]],        # integer coordinates with odd birth + death
 ]
 
 
@@ -424,7 +425,13 @@ def matching_case(case, ctx):
         m = np.asarray(m, dtype=float)
         ex = {"S": S, "T": T, "matching": m.tolist(), "which": which, "axmode": case["axmode"]}
         ctx.trans()
-        getattr(persim, which + "_matching")(A, B, m, **kw)
+        # the diagrams are handed to the plot as float arrays, or - where every coordinate is an integer - as
+        # integer arrays (rotating with the axes mode): feet on the diagonal have half-integer coordinates then
+        Ap, Bp = A, B
+        if case["axmode"] != "given-current" and all(float(x).is_integer() for p_ in S + T for x in p_):
+            Ap, Bp = A.astype(np.int64 if case["axmode"] == "not-given" else np.int32), B.astype(np.int64)
+            ex["dtype"] = "integer arrays"
+        getattr(persim, which + "_matching")(Ap, Bp, m, **kw)
         untouched(ctx, other, which + "_matching", ex)
         # expected segments: one per row
         want = []
